@@ -554,7 +554,7 @@ pub fn execute(spec: &RunSpec, chooser: Chooser, pool: Arc<dyn Pool + Send + Syn
                     hooks::set_in_op(false);
                     // operands still what they were? (shared operands only; fresh ones are gone)
                     let inputs_intact = if op.fresh {
-                        true
+                        !hooks::take_input_modified()
                     } else {
                         op.args.iter().enumerate().all(|(pos, t)| match pool2.get(pos, t) {
                             Some(v) => serde_json::to_string(&*v).map(|s| &s == t).unwrap_or(false),
